@@ -494,6 +494,7 @@ func Run(c *run.Ctx) {
 		}
 		return
 	}
+	followMissing(c)
 	idx := 0
 	for _, nm := range pinnedNames {
 		if c.Mine(idx) && !halt {
